@@ -177,6 +177,12 @@ func TestReplay(t *testing.T) {
 	if rep.FromSeed {
 		tape = simkit.NewTape(rep.Seed)
 	}
+	if h := rep.History; h != nil {
+		for i := 0; i < h.Count; i++ {
+			s := h.First + uint64(i)*h.Stride
+			RunOnce(t, p, s, simkit.NewTape(s), rep.Tier, false)
+		}
+	}
 	res := RunOnce(t, p, rep.Seed, tape, rep.Tier, verbose)
 	if verbose {
 		for _, l := range res.Log {
